@@ -142,139 +142,55 @@ Proof.
     rewrite map_app. cbn [map fst]. rewrite distinct_snoc, Hd0, <- has_keys, Eh. reflexivity.
 Qed.
 
-(** number of occurrences of a key *)
-Definition cnt (k : str) (l : list str) : nat := length (filter (str_eqb k) l).
-Lemma cnt_app k l1 l2 : cnt k (l1 ++ l2) = (cnt k l1 + cnt k l2)%nat.
-Proof. unfold cnt. now rewrite filter_app, app_length. Qed.
-Lemma cnt_zero_mem k l : cnt k l = O -> mem k l = false.
-Proof.
-  unfold cnt. induction l as [|x l IH]; cbn [filter mem]; [reflexivity|].
-  destruct (str_eqb k x); cbn [length orb]; [discriminate | exact IH].
-Qed.
 Lemma mem_app k l1 l2 : mem k (l1 ++ l2) = mem k l1 || mem k l2.
 Proof. rewrite !mem_existsb. apply existsb_app. Qed.
 
-(** removal from a map with unique keys *)
-Lemma assoc_remove_other {B} k n (l : list (str * B)) : str_eqb k n = false -> assoc k (remove_key n l) = assoc k l.
-Proof.
-  intro Hne. induction l as [|[k' v] l IH]; cbn [remove_key assoc]; [reflexivity|].
-  destruct (str_eqb n k') eqn:E.
-  - apply seqb_eq in E. subst k'. now rewrite Hne.
-  - cbn [assoc]. now rewrite IH.
-Qed.
-Lemma keys_remove_sub {B} n x (l : list (str * B)) :
-  existsb (str_eqb x) (map fst (remove_key n l)) = true -> existsb (str_eqb x) (map fst l) = true.
-Proof.
-  induction l as [|[k' v] l IH]; cbn [remove_key map fst existsb]; [auto|].
-  destruct (str_eqb n k'); cbn [map fst existsb].
-  - intro H. rewrite H. apply orb_true_r.
-  - intro H. apply orb_true_iff in H as [H|H]; [now rewrite H | rewrite (IH H); apply orb_true_r].
-Qed.
-Lemma distinct_remove {B} n (l : list (str * B)) : distinct (map fst l) = true -> distinct (map fst (remove_key n l)) = true.
-Proof.
-  induction l as [|[k' v] l IH]; cbn [remove_key map fst distinct]; [auto|]. intro H. apply andb_true_iff in H as [H1 H2].
-  destruct (str_eqb n k'); [exact H2|]. cbn [map fst distinct]. rewrite (IH H2), andb_true_r.
-  apply negb_true_iff. apply negb_true_iff in H1.
-  destruct (existsb (str_eqb k') (map fst (remove_key n l))) eqn:E; [|reflexivity].
-  apply keys_remove_sub in E. congruence.
-Qed.
-Lemma assoc_remove_same {B} n (l : list (str * B)) : distinct (map fst l) = true -> assoc n (remove_key n l) = None.
-Proof.
-  induction l as [|[k' v] l IH]; cbn [remove_key map fst distinct assoc]; [auto|]. intro H. apply andb_true_iff in H as [H1 H2].
-  destruct (str_eqb n k') eqn:E.
-  - apply seqb_eq in E. subst k'. apply negb_true_iff in H1.
-    destruct (assoc n l) as [v0|] eqn:Ea; [|reflexivity]. exfalso.
-    assert (Hh : has n l = true) by (unfold has; now rewrite Ea). rewrite has_keys in Hh. congruence.
-  - cbn [assoc]. rewrite E. now apply IH.
-Qed.
-
-(** the replacement map still holds exactly the renamings of the plain names not yet met *)
-Definition RInv (ren repl : list (str * str)) (done : list str) : Prop :=
-  distinct (map fst repl) = true /\
-  forall k, assoc k repl = if mem k done && negb (has_colon k) then None else assoc k ren.
-(** no renamed name is met twice *)
-Definition ROnce (ren : list (str * str)) (keys : list str) : Prop :=
-  forall k, has k ren = true -> (cnt k keys <= 1)%nat.
+(** every used renaming belongs to a plain name met so far *)
+Definition UInv (used done : list str) : Prop :=
+  forall k, mem k used = true -> has_colon k = false /\ mem k done = true.
 
 Lemma is_id_has_colon n : is_id n = has_colon n.
 Proof. reflexivity. Qed.
 
 Lemma include_go_sim t ren : forall src src', Rexts t src src' ->
-  forall target target' repl done tgt repl',
-  Rexts t target target' -> RInv ren repl done -> ROnce ren (done ++ map fst src) ->
-  include_go target repl src = DOk (tgt, repl') ->
-  exists tgt', den_include_side ren target' src' = Some tgt' /\ Rexts t tgt tgt' /\ RInv ren repl' (done ++ map fst src).
+  forall target target' used done tgt used',
+  Rexts t target target' -> UInv used done ->
+  include_go target ren used src = DOk (tgt, used') ->
+  exists tgt', den_include_side ren target' src' = Some tgt' /\ Rexts t tgt tgt' /\ UInv used' (done ++ map fst src).
 Proof.
-  induction 1 as [|[n kd] [n' tr] src src' [Hn Hk] _ IH]; intros target target' repl done tgt repl' Ht Hinv Honce H.
+  induction 1 as [|[n kd] [n' tr] src src' [Hn Hk] _ IH]; intros target target' used done tgt used' Ht Hinv H.
   - cbn in H. injection H as <- <-. exists target'. cbn [map]. rewrite app_nil_r. auto.
-  - cbn [fst snd] in Hn, Hk. subst n'. cbn [include_go] in H. dinv H as [[n1 repl1] [E1 H]].
+  - cbn [fst snd] in Hn, Hk. subst n'. cbn [include_go] in H. dinv H as [[n1 used1] [E1 H]].
     cbn [den_include_side]. cbv zeta. unfold renamed. rewrite is_id_has_colon.
-    cbn [map fst] in *. change (done ++ n :: map fst src) with (done ++ [n] ++ map fst src) in *. rewrite app_assoc in *.
-    destruct Hinv as [Hd Hinv]. unfold replace_name in E1. destruct (has_colon n) eqn:Ec.
+    cbn [map fst]. change (done ++ n :: map fst src) with (done ++ [n] ++ map fst src). rewrite app_assoc.
+    unfold replace_name in E1. destruct (has_colon n) eqn:Ec.
     + (* an interface id: never renamed, merged when present *)
       injection E1 as <- <-.
-      assert (Hinv1 : RInv ren repl (done ++ [n])).
-      { split; [exact Hd|]. intro k. rewrite Hinv, mem_app. cbn [mem]. rewrite orb_false_r.
-        destruct (str_eqb k n) eqn:E; [|now rewrite orb_false_r]. apply seqb_eq in E. subst k.
-        rewrite Ec, orb_true_r. cbn [negb]. now rewrite !andb_false_r. }
+      assert (Hinv1 : UInv used (done ++ [n])).
+      { intros k Hk'. destruct (Hinv k Hk') as [H1 H2]. split; [exact H1|]. now rewrite mem_app, H2. }
       unfold or_insert in H. rewrite <- (R2_has _ _ _ n Ht). destruct (has n target) eqn:Eh.
-      * apply (IH _ _ _ _ _ _ Ht Hinv1 Honce H).
-      * apply (IH _ _ _ _ _ _ (R2_snoc _ _ _ _ _ _ Ht Hk) Hinv1 Honce H).
-    + (* a plain name *)
-      assert (Ea : assoc n repl = assoc n ren).
-      { rewrite Hinv, Ec. cbn [negb]. rewrite andb_true_r. destruct (mem n done) eqn:Em; [|reflexivity].
-        destruct (assoc n ren) as [m|] eqn:Er; [|reflexivity]. exfalso.
-        assert (Hh : has n ren = true) by (unfold has; now rewrite Er).
-        specialize (Honce n Hh). rewrite !cnt_app in Honce.
-        assert (cnt n [n] = 1%nat) by (unfold cnt; cbn [filter]; now rewrite seqb_refl).
-        assert (cnt n done <> O) by (intro Hz; apply cnt_zero_mem in Hz; congruence). lia. }
-      rewrite <- Ea.
-      assert (Hstep : exists repl1', (n1, repl1) = (match assoc n repl with Some to => to | None => n end, repl1') /\
-                                     repl1 = repl1' /\ has n1 target = false /\ RInv ren repl1 (done ++ [n])).
-      { destruct (assoc n repl) as [to|] eqn:Er.
-        - destruct (has to target) eqn:Eh; [discriminate|]. injection E1 as <- <-. eexists. split; [reflexivity|].
-          split; [reflexivity|]. split; [exact Eh|]. split; [now apply distinct_remove|]. intro k.
-          rewrite mem_app. cbn [mem]. rewrite orb_false_r. destruct (str_eqb k n) eqn:E.
-          + apply seqb_eq in E. subst k. rewrite orb_true_r, Ec. cbn [negb andb]. now apply assoc_remove_same.
-          + rewrite orb_false_r, (assoc_remove_other _ _ _ E). apply Hinv.
-        - destruct (has n target) eqn:Eh; [discriminate|]. injection E1 as <- <-. eexists. split; [reflexivity|].
-          split; [reflexivity|]. split; [exact Eh|]. split; [exact Hd|]. intro k.
-          rewrite mem_app. cbn [mem]. rewrite orb_false_r. destruct (str_eqb k n) eqn:E.
-          + apply seqb_eq in E. subst k. rewrite orb_true_r, Ec. cbn [negb andb]. exact Er.
-          + rewrite orb_false_r. apply Hinv. }
-      destruct Hstep as [repl1' [Hpair [<- [Eh Hinv1]]]]. injection Hpair as <-.
+      * apply (IH _ _ _ _ _ _ Ht Hinv1 H).
+      * apply (IH _ _ _ _ _ _ (R2_snoc _ _ _ _ _ _ Ht Hk) Hinv1 H).
+    + (* a plain name: renamed when a replacement exists, on either side *)
+      assert (Hstep : n1 = match assoc n ren with Some m => m | None => n end /\ has n1 target = false /\
+                      UInv used1 (done ++ [n])).
+      { destruct (assoc n ren) as [to|] eqn:Er.
+        - destruct (has to target) eqn:Eh; [discriminate|]. injection E1 as <- <-. split; [reflexivity|]. split; [exact Eh|].
+          intros k Hk'. cbn [mem] in Hk'. rewrite mem_app. cbn [mem]. rewrite orb_false_r.
+          destruct (str_eqb k n) eqn:E.
+          + apply seqb_eq in E. subst k. split; [exact Ec | apply orb_true_r].
+          + cbn [orb] in Hk'. destruct (Hinv k Hk') as [H1 H2]. split; [exact H1 | now rewrite H2].
+        - destruct (has n target) eqn:Eh; [discriminate|]. injection E1 as <- <-. split; [reflexivity|]. split; [exact Eh|].
+          intros k Hk'. destruct (Hinv k Hk') as [H1 H2]. split; [exact H1|]. now rewrite mem_app, H2. }
+      destruct Hstep as [-> [Eh Hinv1]].
       unfold or_insert in H. rewrite Eh in H. rewrite <- (R2_has _ _ _ _ Ht), Eh.
-      apply (IH _ _ _ _ _ _ (R2_snoc _ _ _ _ _ _ Ht Hk) Hinv1 Honce H).
-Qed.
-
-(** the side condition under which the resolver's [include ... with] agrees with WIT: no renamed name occurs
-    twice among the import and export names of the included world (in particular it is not both imported and
-    exported) *)
-Definition once_b (ren : list (str * str)) (keys : list str) : bool :=
-  forallb (fun kv => Nat.leb (cnt (fst kv) keys) 1) ren.
-
-Lemma once_b_ROnce ren keys : once_b ren keys = true -> ROnce ren keys.
-Proof.
-  unfold once_b, ROnce. intros H k Hk. rewrite forallb_forall in H.
-  unfold has in Hk. destruct (assoc k ren) as [v|] eqn:Ea; [|discriminate].
-  assert (Hin : exists k', In (k', v) ren /\ k' = k).
-  { clear -Ea. induction ren as [|[k' v'] ren IH]; cbn [assoc] in Ea; [discriminate|].
-    destruct (str_eqb k k') eqn:E.
-    - injection Ea as ->. apply seqb_eq in E. subst k'. exists k. split; [now left | reflexivity].
-    - destruct (IH Ea) as [k2 [Hin Hk2]]. exists k2. split; [now right | exact Hk2]. }
-  destruct Hin as [k' [Hin ->]]. specialize (H _ Hin). cbn [fst] in H. now apply Nat.leb_le.
+      apply (IH _ _ _ _ _ _ (R2_snoc _ _ _ _ _ _ Ht Hk) Hinv1 H).
 Qed.
 
 Definition world_ref_sem (genv : env) (penv : penv_t) (r : Ast.world_ref) : option sem :=
   match r with
   | Ast.WRIdent i => assoc (nm i) genv
   | Ast.WRPackage pp => den_path genv penv pp
-  end.
-
-Definition include_ok (genv : env) (penv : penv_t) (r : Ast.world_ref) (items : list Ast.include_item) : bool :=
-  match world_ref_sem genv penv r with
-  | Some (SWorld wi we) => once_b (ren_of items) (map fst wi ++ map fst we)
-  | _ => true
   end.
 
 Lemma den_include_eq genv penv w r items :
@@ -290,12 +206,6 @@ Lemma den_include_eq genv penv w r items :
    | _ => None
    end).
 Proof. reflexivity. Qed.
-
-Lemma has_ren_of it items : In it items -> has (nm (Ast.ii_from it)) (ren_of items) = true.
-Proof.
-  intro Hin. rewrite has_keys. apply existsb_exists. exists (nm (Ast.ii_from it)). split; [|apply seqb_refl].
-  unfold ren_of. rewrite map_map. cbn [fst]. now apply (in_map (fun x => nm (Ast.ii_from x))).
-Qed.
 
 (** the included world, as a kind, and its denotation *)
 Lemma world_ref_sim root pkgs genv penv t r k :
@@ -314,16 +224,15 @@ Qed.
 
 Lemma world_include_sim root pkgs genv penv w wb r items w' :
   flat (w_types w) -> Renv (w_types w) root genv -> Rpk (w_types w) pkgs penv -> Rwst w wb ->
-  include_ok genv penv r items = true ->
   world_include root pkgs w r items = DOk w' ->
   w_types w' = w_types w /\ exists wb', den_include genv penv wb r items = Some wb' /\ Rwst w' wb'.
 Proof.
-  intros Hf Hg Hp Hw Hok H. unfold world_include in H. dinv H as [repl [E1 H]]. dinv H as [it [E2 H]].
+  intros Hf Hg Hp Hw H. unfold world_include in H. dinv H as [repl [E1 H]]. dinv H as [it [E2 H]].
   destruct (repl_go_ok _ _ _ E1) as [-> Hd]. cbn [app] in *. specialize (Hd eq_refl).
   assert (Hgen : exists x other, it = KType (TWorld x) /\ get_world (w_types w) x = Some other /\
-            (do (imps, repl1) <- include_go (w_imp w) (ren_of items) (w_imports other) ;;
-             do (exps, repl2) <- include_go (w_exp w) repl1 (w_exports other) ;;
-             if existsb (fun it => has (name_of (Ast.ii_from it)) repl2) items then DErr EMissingWorldInclude
+            (do (imps, used1) <- include_go (w_imp w) (ren_of items) [] (w_imports other) ;;
+             do (exps, used2) <- include_go (w_exp w) (ren_of items) used1 (w_exports other) ;;
+             if existsb (fun it => negb (mem (name_of (Ast.ii_from it)) used2)) items then DErr EMissingWorldInclude
              else DOk (mkwst (mkloc (l_cur (w_loc w)) (l_uses (w_loc w)) imps (w_types w)) exps)) = DOk w').
   { destruct it as [[r0|f|v|i|wd|m]|f|i|wd|m|v]; try discriminate.
     - destruct (get_world (w_types w) wd) as [other|] eqn:G; [|discriminate]. eauto.
@@ -331,77 +240,57 @@ Proof.
   clear H. destruct Hgen as [x [other [-> [G H]]]].
   destruct (world_ref_sim _ _ _ _ _ _ _ Hf Hg Hp E2 eq_refl) as [x0 [s [Ek [Ds Hs]]]]. injection Ek as <-.
   inversion Hs as [| | | |ww other' wi we G' Hwi Hwe]; subst. rewrite G in G'. injection G' as <-.
-  unfold include_ok in Hok. rewrite Ds in Hok. apply once_b_ROnce in Hok.
-  dinv H as [[imps repl1] [E3 H]]. dinv H as [[exps repl2] [E4 H]].
-  destruct (existsb (fun it => has (name_of (Ast.ii_from it)) repl2) items) eqn:Emiss; [discriminate|]. injection H as <-.
+  dinv H as [[imps used1] [E3 H]]. dinv H as [[exps used2] [E4 H]].
+  destruct (existsb (fun it => negb (mem (name_of (Ast.ii_from it)) used2)) items) eqn:Emiss; [discriminate|]. injection H as <-.
   destruct Hw as [[He Hi] Hx]. unfold w_imp, w_types in *.
-  assert (Hinv0 : RInv (ren_of items) (ren_of items) []).
-  { split; [exact Hd|]. intro k. reflexivity. }
-  assert (Ho1 : ROnce (ren_of items) ([] ++ map fst (w_imports other))).
-  { cbn [app]. intros k Hk. specialize (Hok k Hk). rewrite cnt_app in Hok. rewrite (R2_keys _ _ _ Hwi). lia. }
-  destruct (include_go_sim _ (ren_of items) _ _ Hwi _ _ _ _ _ _ Hi Hinv0 Ho1 E3) as [i1 [D1 [R1 Hinv1]]].
+  assert (Hinv0 : UInv [] []) by (intros k Hk; discriminate).
+  destruct (include_go_sim _ (ren_of items) _ _ Hwi _ _ _ _ _ _ Hi Hinv0 E3) as [i1 [D1 [R1 Hinv1]]].
   cbn [app] in Hinv1.
-  assert (Ho2 : ROnce (ren_of items) (map fst (w_imports other) ++ map fst (w_exports other))).
-  { rewrite (R2_keys _ _ _ Hwi), (R2_keys _ _ _ Hwe). exact Hok. }
-  destruct (include_go_sim _ (ren_of items) _ _ Hwe _ _ _ _ _ _ Hx Hinv1 Ho2 E4) as [e1 [D2 [R2' Hinv2]]].
+  destruct (include_go_sim _ (ren_of items) _ _ Hwe _ _ _ _ _ _ Hx Hinv1 E4) as [e1 [D2 [R2' Hinv2]]].
   cbn [w_loc l_types]. split; [reflexivity|].
   rewrite den_include_eq, Hd, Ds. cbn [negb].
   assert (Hall : forallb (fun kv => negb (is_id (fst kv)) && (bound (fst kv) wi || bound (fst kv) we)) (ren_of items) = true).
   { apply forallb_forall. intros kv Hin. unfold ren_of in Hin. apply in_map_iff in Hin as [it0 [<- Hin]]. cbn [fst].
-    destruct Hinv2 as [_ Hinv2]. specialize (Hinv2 (nm (Ast.ii_from it0))).
-    assert (Hnone : assoc (nm (Ast.ii_from it0)) repl2 = None).
-    { assert (Hh : has (nm (Ast.ii_from it0)) repl2 = false).
-      { destruct (has (nm (Ast.ii_from it0)) repl2) eqn:E; [|reflexivity].
-        assert (existsb (fun it => has (name_of (Ast.ii_from it)) repl2) items = true); [|congruence].
-        apply existsb_exists. exists it0. split; [exact Hin | exact E]. }
-      unfold has in Hh. destruct (assoc _ repl2); [discriminate | reflexivity]. }
-    rewrite Hnone in Hinv2. pose proof (has_ren_of _ _ Hin) as Hh. unfold has in Hh.
-    destruct (mem (nm (Ast.ii_from it0)) (map fst (w_imports other) ++ map fst (w_exports other))) eqn:Em;
-      cbn [andb] in Hinv2; [|rewrite <- Hinv2 in Hh; discriminate].
-    destruct (has_colon (nm (Ast.ii_from it0))) eqn:Ec; cbn [negb] in Hinv2; [rewrite <- Hinv2 in Hh; discriminate|].
-    rewrite is_id_has_colon, Ec. cbn [negb andb].
+    assert (Hu : mem (nm (Ast.ii_from it0)) used2 = true).
+    { destruct (mem (nm (Ast.ii_from it0)) used2) eqn:E; [reflexivity|].
+      assert (existsb (fun it => negb (mem (name_of (Ast.ii_from it)) used2)) items = true); [|congruence].
+      apply existsb_exists. exists it0. split; [exact Hin|]. change (name_of (Ast.ii_from it0)) with (nm (Ast.ii_from it0)).
+      now rewrite E. }
+    destruct (Hinv2 _ Hu) as [Ec Em]. rewrite is_id_has_colon, Ec. cbn [negb andb].
     rewrite mem_app, !mem_existsb, (R2_keys _ _ _ Hwi), (R2_keys _ _ _ Hwe), <- !bound_keys in Em. exact Em. }
   rewrite Hall. cbn [negb]. rewrite D1, D2. eexists. split; [reflexivity|].
   split; [split|]; cbn [w_loc w_exp l_cur l_exts l_types wb_imp wb_exp b_env b_items]; assumption.
 Qed.
 
-Fixpoint includes_ok (genv : env) (penv : penv_t) (items : list Ast.world_item) : bool :=
-  match items with
-  | [] => true
-  | Ast.WIInclude _ r its :: rest => include_ok genv penv r its && includes_ok genv penv rest
-  | _ :: rest => includes_ok genv penv rest
-  end.
-
 Lemma world_includes_go_sim root pkgs genv penv : forall items w wb w',
   wflat w -> Renv (w_types w) root genv -> Rpk (w_types w) pkgs penv -> Rwst w wb ->
-  includes_ok genv penv items = true ->
   world_includes_go root pkgs w items = DOk w' ->
   w_types w' = w_types w /\ exists wb', den_world_includes genv penv wb items = Some wb' /\ Rwst w' wb'.
 Proof.
-  induction items as [|it rest IH]; intros w wb w' Hf Hg Hp Hw Hok H.
+  induction items as [|it rest IH]; intros w wb w' Hf Hg Hp Hw H.
   - cbn in H. injection H as <-. split; [reflexivity|]. exists wb. auto.
-  - destruct it as [u|d|docs p|docs p|docs r its]; cbn [world_includes_go den_world_includes includes_ok] in *;
+  - destruct it as [u|d|docs p|docs p|docs r its]; cbn [world_includes_go den_world_includes] in *;
       try (eapply IH; eassumption).
-    apply andb_true_iff in Hok as [Hok1 Hok2]. dinv H as [w1 [E1 H]].
-    destruct (world_include_sim _ _ _ _ _ _ _ _ _ (proj1 Hf) Hg Hp Hw Hok1 E1) as [Ht [wb1 [D1 R1]]].
+    dinv H as [w1 [E1 H]].
+    destruct (world_include_sim _ _ _ _ _ _ _ _ _ (proj1 Hf) Hg Hp Hw E1) as [Ht [wb1 [D1 R1]]].
     assert (Hf1 : wflat w1) by (eapply world_include_flat; eassumption).
-    rewrite <- Ht in Hg, Hp. destruct (IH _ _ _ Hf1 Hg Hp R1 Hok2 H) as [Ht2 [wb' [D2 R2']]].
+    rewrite <- Ht in Hg, Hp. destruct (IH _ _ _ Hf1 Hg Hp R1 H) as [Ht2 [wb' [D2 R2']]].
     split; [congruence|]. exists wb'. rewrite D1. auto.
 Qed.
 
 Lemma world_body_sim root pkgs genv penv t idn items i t' :
-  flat t -> Renv t root genv -> Rpk t pkgs penv -> includes_ok genv penv items = true ->
+  flat t -> Renv t root genv -> Rpk t pkgs penv ->
   world_body root pkgs t idn items = DOk (i, t') ->
   aext t t' /\ exists wi we, den_world genv penv items = Some (wi, we) /\ rel_item t' (TWorld i) (SWorld wi we).
 Proof.
-  intros Hf Hg Hp Hok H. unfold world_body in H. dinv H as [w1 [E1 H]]. dinv H as [w2 [E2 H]].
+  intros Hf Hg Hp H. unfold world_body in H. dinv H as [w1 [E1 H]]. dinv H as [w2 [E2 H]].
   set (w0 := mkwst (mkloc [] [] [] t) []) in *.
   assert (Hw0 : Rwst w0 (mkwbody (mkbody [] []) [])) by (split; [split|]; apply R2_nil).
   assert (Hf0 : wflat w0) by (split; [exact Hf | reflexivity]).
   destruct (world_items_go_sim _ _ _ _ _ _ _ _ Hf0 Hg Hp Hw0 E1) as [X1 [wb1 [D1 R1]]].
   change (w_types w0) with t in X1.
   assert (Hf1 : wflat w1) by (eapply world_items_go_flat; eassumption).
-  destruct (world_includes_go_sim _ _ _ _ _ _ _ _ Hf1 (Renv_aext _ _ _ _ X1 Hg) (Rpk_aext _ _ _ _ X1 Hp) R1 Hok E2)
+  destruct (world_includes_go_sim _ _ _ _ _ _ _ _ Hf1 (Renv_aext _ _ _ _ X1 Hg) (Rpk_aext _ _ _ _ X1 Hp) R1 E2)
     as [Ht [wb2 [D2 [[_ Ri] Rx]]]].
   set (x := mkworld idn (l_uses (w_loc w2)) (w_imp w2) (w_exp w2)) in *. unfold add_world in H. injection H as <- <-.
   assert (X2 : aext (w_types w2) (fst (add_world (w_types w2) x))) by apply aext_add_world.
@@ -412,12 +301,34 @@ Proof.
   - eapply Rexts_aext; [exact X2 | exact Rx].
 Qed.
 
-(** * The divergence: a renaming is used up by its first use *)
+(** * HISTORICAL regression record: [include ... with] before the repair
+
+    The algorithm of resolution.rs BEFORE commit 0d98072 (kept here only as a regression record; it is not part of
+    the model any more): [replace_name] removed a renaming from the map after its first use, so when the included
+    world both imports and exports the plain name [f], [include w with { f as g }] renamed only the import. *)
+Fixpoint remove_key_prefix {B} (k : str) (l : list (str * B)) : list (str * B) :=
+  match l with
+  | [] => []
+  | (k', v) :: r => if str_eqb k k' then r else (k', v) :: remove_key_prefix k r
+  end.
+Definition replace_name_prefix (target : list (str * kind)) (n : str) (repl : list (str * str))
+  : dres (str * list (str * str)) :=
+  if has_colon n then DOk (n, repl) else
+  let '(n1, repl1) := match assoc n repl with Some to => (to, remove_key_prefix n repl) | None => (n, repl) end in
+  if has n1 target then DErr EWorldIncludeConflict else DOk (n1, repl1).
+Fixpoint include_go_prefix (target : list (str * kind)) (repl : list (str * str)) (src : list (str * kind))
+  : dres (list (str * kind) * list (str * str)) :=
+  match src with
+  | [] => DOk (target, repl)
+  | (n, k) :: rest =>
+    do (n1, repl1) <- replace_name_prefix target n repl ;;
+    include_go_prefix (or_insert n1 k target) repl1 rest
+  end.
+
 Definition rb_f : str := L"f".
 Definition rb_g : str := L"g".
-Definition rb_types : types :=
-  mktypes 0 [] [] [mkfunc [] None false] []
-          [mkworld None [] [(rb_f, KFunc (mkid 0 0))] [(rb_f, KFunc (mkid 0 0))]] [].
+Definition rb_other : world := mkworld None [] [(rb_f, KFunc (mkid 0 0))] [(rb_f, KFunc (mkid 0 0))].
+Definition rb_types : types := mktypes 0 [] [] [mkfunc [] None false] [] [rb_other] [].
 Definition rb_span : Token.span := {| Token.off := 0; Token.slen := 0 |}.
 Definition rb_ident (s : str) : Ast.ident := {| Ast.id_string := s; Ast.id_span := rb_span |}.
 Definition rb_items : list Ast.include_item := [{| Ast.ii_from := rb_ident rb_f; Ast.ii_to := rb_ident rb_g |}].
@@ -427,12 +338,18 @@ Definition rb_genv : env := [(L"w", SWorld [(rb_f, XFunc rb_ft)] [(rb_f, XFunc r
 Definition rb_w0 : wst := mkwst (mkloc [] [] [] rb_types) [].
 Definition rb_wb0 : wbody := mkwbody (mkbody [] []) [].
 
-Lemma include_renames_both_witness :
-  unfold 3 rb_types (KType (TWorld (mkid 0 0))) = Some (sem_tree (SWorld [(rb_f, XFunc rb_ft)] [(rb_f, XFunc rb_ft)])) /\
+(** the pre-fix algorithm on the witness: imports [g], exports still [f] *)
+Lemma include_prefix_witness :
+  exists imps repl1 exps repl2,
+    include_go_prefix [] (ren_of rb_items) (w_imports rb_other) = DOk (imps, repl1) /\
+    include_go_prefix [] repl1 (w_exports rb_other) = DOk (exps, repl2) /\
+    map fst imps = [rb_g] /\ map fst exps = [rb_f].
+Proof. do 4 eexists. repeat split; vm_compute; reflexivity. Qed.
+
+(** the current model and the denotation on the same witness: [g] on both sides *)
+Lemma include_current_witness :
   (exists w', world_include rb_root (mkpkgs [] []) rb_w0 (Ast.WRIdent (rb_ident (L"w"))) rb_items = DOk w' /\
-              map fst (w_imp w') = [rb_g] /\ map fst (w_exp w') = [rb_f]) /\
+              map fst (w_imp w') = [rb_g] /\ map fst (w_exp w') = [rb_g]) /\
   (exists wb', den_include rb_genv (mkpenv [] []) rb_wb0 (Ast.WRIdent (rb_ident (L"w"))) rb_items = Some wb' /\
                map fst (b_items (wb_imp wb')) = [rb_g] /\ map fst (wb_exp wb') = [rb_g]).
-Proof.
-  split; [vm_compute; reflexivity|]. split; eexists; (split; [vm_compute; reflexivity|]); split; vm_compute; reflexivity.
-Qed.
+Proof. split; eexists; (split; [vm_compute; reflexivity|]); split; vm_compute; reflexivity. Qed.
